@@ -131,7 +131,7 @@ def arg_cases(tier):
     out = []
     for m in minutes_domain(tier):
         out.append((1, "control_on", {"minutes": m}))
-    for m in (0, 1, 30, 90, 1 << 20):
+    for m in (0, 1, 30, 90, 1 << 20, 71582788, 71582789, 1 << 32):
         out.append((1, "control_off", {"minutes": m}))
     out.append((1, "control_off", {}))
     for s, us in timedelta_domain(tier):
